@@ -118,8 +118,9 @@ func (c *baseTrafficShapingController) performCheckingForConcurrencyMetric(arg i
 	initConcurrency := int64(0)
 	concurrencyPtr := c.metric.ConcurrencyCounter.AddIfAbsent(arg, &initConcurrency)
 	if concurrencyPtr == nil {
-		// First to access this arg
-		return nil
+		// First to access this arg: the counter has just been created (nothing in flight yet),
+		// the threshold still has to be consulted (it may be zero).
+		concurrencyPtr = &initConcurrency
 	}
 	concurrency := atomic.LoadInt64(concurrencyPtr)
 	concurrency++
